@@ -22,6 +22,10 @@ Surface AST (plain Python, printed both as Rust/Ascent text and as the s-express
 that `pattern_get_vars` does not report (none of the generated forms since fix f47e99d added the `Pat::Paren` arm; before it:
 variables under a parenthesised sub-pattern — the field stays in the summary for pattern forms no syntactic analysis can see).
 Variables inside macro bodies that refer to a parameter are written `$p`.
+A relation may be declared MORE THAN ONCE (`rel` items with the same name, cols, lat): legal, `dedup_all_keep_last_by` (ascent_hir.rs) drops every
+declaration that has a later one of the same identity, the LAST copy is the declaration (its attributes count; those of the replaced copies are never
+looked at).  Both printers emit every copy, in order; everything that looks a relation up by name takes the last copy (`rels_of`, `last_decls`), and
+the declaration-level mutators plant their violation on the last copy.
 
 Typing discipline (so that the well-formed texts compile under rustc): every column is `i32` except an optional last
 `Option<i32>` column (only reached through `?Some(v)`, `_`, or `Some(e)` in heads) — a variable occurrence inside an
@@ -147,6 +151,17 @@ def PROG(kind, items, attrs=(), sig=None): return {"kind": kind, "attrs": list(a
 # ------------------------------------------------------------------ program facts used by generator and mutators
 
 def rels_of(p): return {it["name"]: it for it in p["items"] if it["t"] == "rel"}      # last declaration wins, as in prog_get_relation
+def last_decls(p):
+    """relation name -> index in p["items"] of its LAST declaration: the one `prog_get_relation` finds and (all copies of a well-formed program being
+    identical) the one that survives `dedup_all_keep_last_by` - the effective declaration"""
+    return {it["name"]: i for i, it in enumerate(p["items"]) if it["t"] == "rel"}
+def replaced_decls(p):
+    """indices of the declarations that have a later declaration of the same identity (name, columns, lattice or not): dropped by the dedup"""
+    out = []
+    for i, it in enumerate(p["items"]):
+        if it["t"] == "rel" and any(x["t"] == "rel" and (x["name"], x["cols"], x["lat"]) == (it["name"], it["cols"], it["lat"]) for x in p["items"][i + 1:]):
+            out.append(i)
+    return out
 def macs_of(p): return {it["name"]: it for it in p["items"] if it["t"] == "mac"}
 def rules_of(p): return [(i, it) for i, it in enumerate(p["items"]) if it["t"] == "rule"]
 
@@ -372,9 +387,32 @@ def usable(bound, usize):
     return [v for v in bound if v not in usize]
 
 
+DS = lambda: ATTR("ds", "list", "ds(ascent::rel)")
+
+
+def redeclare(p, rng, n):
+    """re-declare `n` relations of a well-formed program: an exact copy (name, columns, lattice or not) of the declaration is inserted at a random
+    EARLIER position of the item list, so the original stays the last = effective declaration.  The copy may differ in what is not part of the
+    identity, in ways that are well-formed whichever copy counts: the trailing comma, and its attributes (the same / none / a `doc` / for a relation
+    a `ds(..)` provider)."""
+    r = rng
+    for _ in range(n):
+        i = r.choice(sorted(last_decls(p).values()))
+        c = copy.deepcopy(p["items"][i])
+        x = r.below(5)
+        if x == 0: c["attrs"] = []
+        elif x == 1: c["attrs"] = [ATTR("doc", "nv", 'doc = "an earlier declaration"')]
+        elif x == 2 and not c["lat"]: c["attrs"] = [DS()]
+        elif x == 3 and not c["lat"]: c["attrs"] = [a for a in c["attrs"] if a["name"] != "ds"]
+        if not c["lat"]: c["trail"] = r.chance(1, 4)
+        p["items"].insert(r.below(i + 1), c)
+    return p
+
+
 def gen_program(rng, kind, feats=None):
-    """a well-formed program; feats: macros, disj, agg, pats, ds, attrs, multihead, sig (all default on, chosen by quota)"""
-    f = dict(macros=True, disj=True, agg=True, pats=True, ds=True, attrs=True, multihead=True, sig=True, shuffle=True)
+    """a well-formed program; feats: macros, disj, agg, pats, ds, attrs, multihead, sig (all default on, chosen by quota); redecl: how many relations are
+    declared twice (None: one, with chance 1/8; the quota of c15.build_streams forces 1 or 2 on a fixed subset of the programs)"""
+    f = dict(macros=True, disj=True, agg=True, pats=True, ds=True, attrs=True, multihead=True, sig=True, shuffle=True, redecl=None)
     f.update(feats or {})
     g = Gen(rng, kind, f)
     g.usize = set()
@@ -550,6 +588,9 @@ def gen_program(rng, kind, feats=None):
         it.pop("lev", None); it.pop("modes", None)
     p = PROG(kind, items, attrs, sig)
     p["usize"] = sorted(g.usize)
+    rr = rng.fork("redecl")            # (a fork: the programs without re-declarations are the ones generated before the feature existed)
+    nre = f["redecl"] if f["redecl"] is not None else (1 if rr.chance(1, 8) else 0)
+    if nre: redeclare(p, rr, nre)
     return p
 
 
@@ -616,9 +657,10 @@ def mut_undeclared(p):
         get(q, path)["rel"] = "undeclared9"
         yield mutant(q, "undeclared", "use", occ_pos(ctx))
     used = {get(p, path)["rel"] for path, _ in occurrences(p)}
-    for i, it in enumerate(p["items"]):
-        if it["t"] == "rel" and it["name"] in used:
-            q = copy.deepcopy(p); del q["items"][i]
+    for nm in last_decls(p):
+        if nm in used:
+            # EVERY declaration of the relation goes (removing one copy of a re-declared relation leaves a well-formed program)
+            q = copy.deepcopy(p); q["items"] = [it for it in q["items"] if not (it["t"] == "rel" and it["name"] == nm)]
             yield mutant(q, "undeclared", "declaration-removed", "declaration")
 
 
@@ -635,8 +677,9 @@ def mut_arity(p):
                 if x["t"] == "agg" and a["t"] == "v" and a["n"] in x["bound"]: x["bound"].remove(a["n"])
             yield mutant(q, "arity", how, occ_pos(ctx))
     used = {get(p, path)["rel"] for path, _ in occurrences(p)}
-    for i, it in enumerate(p["items"]):
-        if it["t"] == "rel" and it["name"] in used and not it["lat"]:
+    for i in sorted(last_decls(p).values()):          # the LAST declaration of the name is the one the rules are resolved against
+        it = p["items"][i]
+        if it["name"] in used and not it["lat"]:
             q = copy.deepcopy(p); q["items"][i]["cols"].append("i32")
             yield mutant(q, "arity", "declaration-widened", "declaration")
 
@@ -869,8 +912,9 @@ def mut_include(p):
 
 
 def mut_ds(p):
-    for i, it in enumerate(p["items"]):
-        if it["t"] != "rel": continue
+    last = sorted(last_decls(p).values())        # the violation sits on the effective (= last) declaration of a relation: a replaced copy takes no part
+    for i in last:
+        it = p["items"][i]
         if it["lat"]:
             q = copy.deepcopy(p); q["items"][i]["attrs"].insert(0, ATTR("ds", "list", "ds(ascent::rel)"))
             yield mutant(q, "ds-on-lattice", "ds", "declaration")
@@ -886,12 +930,73 @@ def mut_ds(p):
     yield mutant(q, "two-ds", "program", "program-attribute")
     if not any(it["t"] == "rel" and it["lat"] for it in p["items"]):
         # turn a relation into a lattice that keeps its ds attribute
-        for i, it in enumerate(p["items"]):
-            if it["t"] == "rel" and len(it["cols"]) >= 2 and all(c == "i32" for c in it["cols"]):
+        for i in last:
+            it = p["items"][i]
+            if len(it["cols"]) >= 2 and all(c == "i32" for c in it["cols"]):
                 q = copy.deepcopy(p); q["items"][i]["lat"] = True; q["items"][i]["trail"] = False
                 q["items"][i]["attrs"] = [a for a in q["items"][i]["attrs"] if a["name"] != "ds"] + [ATTR("ds", "list", "ds(ascent::rel)")]
                 yield mutant(q, "ds-on-lattice", "ds", "declaration")
                 break
+
+
+DUP, LATX = "zd9", "zl9"
+
+def lattice_target(q):
+    """index of the effective (last) declaration of a lattice of `q`; a lattice `zl9(i32, i32)` is appended when the program has none"""
+    ls = [i for i in sorted(last_decls(q).values()) if q["items"][i]["lat"]]
+    if ls: return ls[-1]
+    q["items"].append(REL(LATX, ["i32", "i32"], lat=True))
+    return len(q["items"]) - 1
+
+
+def mut_redecl(p):
+    """re-declared relations (legal: `dedup_all_keep_last_by` keeps the last copy) around the declaration-level checks.
+    FORCED ill-formed programs: `#[ds(..)]` on a lattice that is declared BEHIND a duplicated declaration - the `ds` test must look at the attributes of
+    the lattice itself, whatever the dedup dropped in front of it (an implementation that pairs the de-duplicated declarations with attributes collected
+    before the dedup accepts these).  Well-formed variants: the offending attribute sits on a REPLACED copy, which takes no part in the program."""
+    pos = "declaration/after-redeclaration"
+    def base():
+        q = copy.deepcopy(p)
+        return q, lattice_target(q)
+    def dup(): return REL(DUP, ["i32"])
+    # a fresh relation declared twice (three times) directly in front of the lattice / at the start of the program / one copy each
+    for variant, plan in (("after-duplicated-relation-adjacent", lambda q, li: [li, li]), ("after-duplicated-relation-at-start", lambda q, li: [0, 0]),
+                          ("after-duplicated-relation-split", lambda q, li: [li, 0]), ("after-triplicated-relation", lambda q, li: [li, li, 0])):
+        q, li = base()
+        for at in plan(q, li): q["items"].insert(at, dup())          # (every insertion is at or in front of the lattice: it moves one down)
+        li = lattice_target(q)
+        q["items"][li]["attrs"].insert(0, DS())
+        yield mutant(q, "ds-on-lattice", variant, pos)
+    # a relation of the program itself re-declared (without attributes) at the start
+    q, li = base()
+    others = [i for i in sorted(last_decls(q).values()) if i != li]
+    cand = [i for i in others if i < li] or others
+    if cand:
+        c = copy.deepcopy(q["items"][cand[0]]); c["attrs"] = []
+        q["items"].insert(0, c)
+        li = lattice_target(q)
+        q["items"][li]["attrs"].insert(0, DS())
+        yield mutant(q, "ds-on-lattice", "after-redeclared-relation-of-the-program", pos)
+    # the lattice itself declared twice, the provider on the effective (last) copy
+    q, li = base()
+    q["items"].insert(li, copy.deepcopy(q["items"][li]))
+    q["items"][li + 1]["attrs"].insert(0, DS())
+    yield mutant(q, "ds-on-lattice", "on-the-last-copy-of-a-redeclared-lattice", pos)
+    # ---- accepted: the attribute sits on a copy that a later identical declaration replaces
+    posr = "declaration/replaced"
+    for variant, at_start in (("ds-on-replaced-lattice-declaration", False), ("ds-on-replaced-lattice-declaration-at-start", True)):
+        q, li = base()
+        c = copy.deepcopy(q["items"][li]); c["attrs"].insert(0, DS())
+        q["items"].insert(0 if at_start else li, c)
+        yield mutant(q, "wellformed-variant", variant, posr, expect="ok")
+    rl = [i for i in sorted(last_decls(p).values()) if not p["items"][i]["lat"]]
+    if rl:
+        i = rl[0]
+        for variant, attrs in (("two-ds-on-replaced-relation-declaration", [DS(), DS()]), ("ds-without-arguments-on-replaced-relation-declaration", [ATTR("ds", "path", "ds")])):
+            q = copy.deepcopy(p)
+            c = copy.deepcopy(q["items"][i]); c["attrs"] = [a for a in c["attrs"] if a["name"] != "ds"] + attrs
+            q["items"].insert(0, c)
+            yield mutant(q, "wellformed-variant", variant, posr, expect="ok")
 
 
 def mut_attrs(p):
@@ -1133,6 +1238,7 @@ def _all_mutants(p, rng):
     yield from mut_recmacro(p)
     yield from mut_macro_misc(p)
     yield from mut_ds(p)
+    yield from mut_redecl(p)
     yield from mut_attrs(p)
     yield from mut_known_shapes(p)
     yield from mut_order(p, rng)
